@@ -385,16 +385,28 @@ func oracle(c *Case) (facts, error) {
 			badText := "no_such_column_zz = $1"
 			fire := func(n int) error {
 				for i := 0; i < n; i++ {
+					// the call runs in a goroutine of its own: a driver call that
+					// never returns cannot be interrupted through database/sql
 					ctx, cancel := context.WithTimeout(context.Background(), 20*time.Second)
-					err := fix.Safe(func() error {
-						r, e := gdb.QueryContext(ctx, badText, val)
-						if e == nil {
-							r.Close()
-							return nil
-						}
-						return e
-					})
-					timedOut := ctx.Err() == context.DeadlineExceeded // before cancel: afterwards Err is always set
+					res := make(chan error, 1)
+					go func() {
+						res <- fix.Safe(func() error {
+							r, e := gdb.QueryContext(ctx, badText, val)
+							if e == nil {
+								r.Close()
+								return nil
+							}
+							return e
+						})
+					}()
+					var err error
+					timedOut := false
+					select {
+					case err = <-res:
+						timedOut = ctx.Err() == context.DeadlineExceeded // before cancel: afterwards Err is always set
+					case <-time.After(25 * time.Second):
+						timedOut, err = true, fmt.Errorf("the call has not returned after 25 s")
+					}
 					cancel()
 					if err == nil {
 						return fmt.Errorf("query %+q via grpc on an unknown column returned rows", badText)
